@@ -23,6 +23,16 @@ def _least_squares_fit(optimize_func, parameters):
     return (solution[0], solution[1])
 
 
+def _intensity_scale(intensities):
+    """
+    The typical absolute intensity (1 if it is zero or not finite).
+    """
+    scale = np.mean(np.abs(intensities))
+    if not np.isfinite(scale) or scale == 0.0:
+        scale = 1.0
+    return scale
+
+
 def first_and_second_harmonic_function(phi, c):
     r"""
     Compute the harmonic function value used to calculate the
@@ -85,12 +95,19 @@ def fit_first_and_second_harmonics(phi, intensities):
     """
     a1 = b1 = a2 = b2 = 1.0
 
+    # fit in units of the typical intensity, so that the unit initial
+    # guesses and the optimizer's finite-difference steps are adequate
+    # for data of any magnitude
+    scale = _intensity_scale(intensities)
+    intensities = intensities / scale
+
     def optimize_func(x):
         return first_and_second_harmonic_function(
             phi, np.array([x[0], x[1], x[2], x[3], x[4]])) - intensities
 
-    return _least_squares_fit(optimize_func, [np.mean(intensities), a1, b1,
-                                              a2, b2])
+    coeffs, covariance = _least_squares_fit(
+        optimize_func, [np.mean(intensities), a1, b1, a2, b2])
+    return coeffs * scale, covariance
 
 
 def fit_upper_harmonic(phi, intensities, order):
@@ -127,8 +144,14 @@ def fit_upper_harmonic(phi, intensities, order):
     """
     an = bn = 1.0
 
+    # see fit_first_and_second_harmonics
+    scale = _intensity_scale(intensities)
+    intensities = intensities / scale
+
     def optimize_func(x):
         return (x[0] + x[1] * np.sin(order * phi)
                 + x[2] * np.cos(order * phi) - intensities)
 
-    return _least_squares_fit(optimize_func, [np.mean(intensities), an, bn])
+    coeffs, covariance = _least_squares_fit(
+        optimize_func, [np.mean(intensities), an, bn])
+    return coeffs * scale, covariance
